@@ -8,6 +8,7 @@ real pool leaves to the OS: in which order tasks execute, which worker gets
 which task and in which order they complete.
 """
 
+import concurrent.futures
 import pickle
 
 
@@ -116,21 +117,46 @@ class MPPool(_SimPoolBase):
         pass
 
 
-class ExecutorPool(_SimPoolBase):
-    """concurrent.futures-like: size in `_max_workers`, map returns iterator."""
+class SimFuture(concurrent.futures.Future):
+    """A finished future whose place in `as_completed` (which iterates over a
+    set of finished futures) is decided by the run's PRNG through its hash:
+    code that consumes results in completion order sees a seeded, repeatable
+    completion order instead of the OS's."""
+
+    def __init__(self, rank):
+        concurrent.futures.Future.__init__(self)
+        self._rank = rank
+
+    def __hash__(self):
+        return self._rank
+
+    def __eq__(self, other):
+        return self is other
+
+
+class ExecutorPool(_SimPoolBase, concurrent.futures.Executor):
+    """concurrent.futures-like: size in `_max_workers`, map returns an
+    iterator, submit returns futures."""
     flavour = 'executor'
 
     def __init__(self, size, rng, stats=None):
         _SimPoolBase.__init__(self, size, rng, stats)
         self._max_workers = self._n
 
-    def map(self, func, iterable, timeout=None, chunksize=1):
-        return iter(self._run(func, iterable))
+    def map(self, func, *iterables, timeout=None, chunksize=1):
+        if len(iterables) == 1:
+            return iter(self._run(func, iterables[0]))
+        return iter(self._run(_Star(func), zip(*iterables)))
 
     def submit(self, func, *args, **kwargs):
-        return _Async(self._run(_Star(func, kwargs), [args])[0])
+        f = SimFuture(self._rng.getrandbits(20))
+        try:
+            f.set_result(self._run(_Star(func, kwargs), [args])[0])
+        except Exception as e:
+            f.set_exception(e)
+        return f
 
-    def shutdown(self, wait=True):
+    def shutdown(self, wait=True, cancel_futures=False):
         pass
 
 
